@@ -312,6 +312,8 @@ type PathCfg struct {
 	// Branch returns event classes for taking (taken=true: first successor) a conditional branch.
 	// cond is the branch condition with phis resolved along the path taken so far.
 	Branch func(ifi *ssa.If, cond ssa.Value, taken bool) []string
+	// BranchV is like Branch with a resolver for other values (what flowed into them along the path).
+	BranchV func(ifi *ssa.If, cond ssa.Value, taken bool, resolve func(ssa.Value) ssa.Value) []string
 	// Inline decides whether a call to a module function is expanded.
 	Inline func(callee *ssa.Function) bool
 	// HigherOrder: canonical callee name -> index (among non-receiver args) of a
@@ -764,7 +766,7 @@ func (en *enumerator) walk(fn *ssa.Function, b *ssa.BasicBlock, pred *ssa.BasicB
 				return
 			}
 			brEv := func(taken bool) []Event {
-				if en.cfg.Branch == nil {
+				if en.cfg.Branch == nil && en.cfg.BranchV == nil {
 					return events
 				}
 				ev := events
@@ -776,8 +778,15 @@ func (en *enumerator) walk(fn *ssa.Function, b *ssa.BasicBlock, pred *ssa.BasicB
 						return events
 					}
 				}
-				for _, cl := range en.cfg.Branch(x, rc, taken) {
-					ev = append(append([]Event(nil), ev...), Event{Class: cl, In: x})
+				if en.cfg.Branch != nil {
+					for _, cl := range en.cfg.Branch(x, rc, taken) {
+						ev = append(append([]Event(nil), ev...), Event{Class: cl, In: x})
+					}
+				}
+				if en.cfg.BranchV != nil {
+					for _, cl := range en.cfg.BranchV(x, rc, taken, func(v ssa.Value) ssa.Value { return resolvePhi(v, env) }) {
+						ev = append(append([]Event(nil), ev...), Event{Class: cl, In: x})
+					}
 				}
 				return ev
 			}
